@@ -824,6 +824,20 @@ fn run(op: &Value) -> Value {
             }
             match op["fields"].as_u64().unwrap() { 0 => go!(S0), 1 => go!(S1), _ => go!(S2) }
         }
+        "any_newtype" => {
+            // C13: a serde-derived (non-transparent) newtype struct carried by Any, alone and inside a struct / list; JSON is the reference
+            use conjure_object::Any;
+            #[derive(serde::Serialize, serde::Deserialize, Debug, PartialEq, Clone)]
+            struct N(i32);
+            #[derive(serde::Serialize, serde::Deserialize, Debug, PartialEq, Clone)]
+            struct W { n: N, v: Vec<N>, o: Option<N> }
+            let x = op["n"].as_i64().unwrap_or(0) as i32;
+            let a = Any::new(N(x)).map_err(|e| e.to_string()).and_then(|a| a.deserialize_into::<N>().map_err(|e| e.to_string()));
+            let w = W { n: N(x), v: vec![N(x), N(0)], o: Some(N(x)) };
+            let b = Any::new(&w).map_err(|e| e.to_string()).and_then(|a| a.deserialize_into::<W>().map_err(|e| e.to_string()));
+            let j = serde_json::to_string(&w).ok().and_then(|t| serde_json::from_str::<W>(&t).ok());
+            json!({"same": a.as_ref().ok() == Some(&N(x)) && b.as_ref().ok() == Some(&w), "alone": format!("{:?}", a), "nested": format!("{:?}", b), "json_reference_ok": j == Some(w)})
+        }
         "any_key" => {
             // C13: a JSON object whose key is the decimal text of an integer, carried by Any, read back as a map keyed by that integer type
             use conjure_object::Any;
